@@ -44,6 +44,12 @@ def http_alphabet(version: str) -> List[Tuple[str, dict]]:
         ("start:trailers", {"type": "http.response.start", "status": 200, "headers": OKH, "trailers": True}),
         ("start:204", {"type": "http.response.start", "status": 204, "headers": []}),
         ("start:nohdr", {"type": "http.response.start", "status": 201}),
+        # a response start with an interim status is still THE response start of the request: whatever follows it is
+        # judged in the state after a start (a second start raises), exactly as after a final status
+        ("start:100", {"type": "http.response.start", "status": 100, "headers": []}),
+        ("start:102", {"type": "http.response.start", "status": 102, "headers": OKH}),
+        ("start:103", {"type": "http.response.start", "status": 103, "headers": [(b"link", b"</s.css>; rel=preload")]}),
+        ("start:199", {"type": "http.response.start", "status": 199, "headers": OKH, "trailers": True}),
     ]
     for k, h in BAD_HEADERS.items():
         a.append((f"start:{k}", {"type": "http.response.start", "status": 200, "headers": h}))
@@ -151,8 +157,24 @@ class HttpRef:
             return all(isinstance(x, (bytes, bytearray)) and not any(c in CTL for c in bytes(x)) for x in m.get("links", []))
         return False
 
-    def advance(self, m: dict, impl_state: str) -> None:
-        self.st = impl_state
+    def advance(self, m: dict, impl_state: str, accepted: bool = True, verdict: Optional[bool] = True) -> None:
+        """The automaton's OWN successor state (it does not follow the implementation): a refused message changes nothing;
+        ANY accepted start - whatever its status, interim ones included - is the response start; the final body ends the
+        response or, when trailers were announced, opens the trailers; the final trailers end it.  Only where the automaton
+        does not say whether the message is valid (verdict None: trailers before the start / before the end of the body,
+        a str body) does it go where the implementation went."""
+        if not accepted:
+            return
+        t = m["type"]
+        if verdict is None:
+            self.st = impl_state
+        elif t == "http.response.start":
+            self.st = "RESPONSE"
+            self.trailers = bool(m.get("trailers", False))
+        elif t == "http.response.body" and not m.get("more_body", False):
+            self.st = "TRAILERS" if self.trailers else "CLOSED"
+        elif t == "http.response.trailers" and not m.get("more_trailers", False):
+            self.st = "CLOSED"
 
 
 def offered_subprotocols(headers) -> Optional[List[str]]:
@@ -243,10 +265,13 @@ def check_http(ctx: Ctx, version: str, seqs: List[List[Tuple[str, dict]]]) -> No
         ctx.evaluations += 1
         case = {"family": "http", "version": version, "seq": _classes(seq)}
         ref = HttpRef(version)
-        finals, ended, nontriv = 0, False, False
+        finals, heads, ended, nontriv = 0, 0, False, False
+        impl_st = "REQUEST"
         for k, ((cls, m), o) in enumerate(zip(seq, steps)):
             want = ref.judge(m)
             raised = o["error"] is not None
+            if m["type"] == "http.response.start":
+                ctx.count(f"http{version}.start_status_class", f"{int(m['status']) // 100}xx in {ref.st}")
             ctx.count(f"http{version}.verdict", {None: "unspecified", True: "valid", False: "invalid"}[want])
             if want is False:
                 nontriv = True
@@ -255,9 +280,11 @@ def check_http(ctx: Ctx, version: str, seqs: List[List[Tuple[str, dict]]]) -> No
                 ctx.violation("invalid_accepted", {**case, "at": k}, o, sig)
             if want is True and raised:
                 ctx.violation("valid_rejected", {**case, "at": k}, o, sig)
-            if raised and (o["events"] or o["state"] != ref.st):
+            if raised and (o["events"] or o["state"] != impl_st):
                 ctx.violation("reject_not_noop", {**case, "at": k}, o, sig)
             for ev in o["events"]:
+                if ev[0] == "response" and m["type"] == "http.response.start":
+                    heads += 1
                 if ev[0] in ("response", "info", "trailers", "push"):
                     hs = ev[-1]
                     if any(ord(c) in CTL for n, v in hs for c in n + v):
@@ -270,9 +297,13 @@ def check_http(ctx: Ctx, version: str, seqs: List[List[Tuple[str, dict]]]) -> No
                     if ended:
                         ctx.violation("end_twice", {**case, "at": k}, o, sig)
                     ended = True
-            ref.advance(m, o["state"])
+            ref.advance(m, o["state"], not raised, want)
+            impl_st = o["state"]
         if finals > 1:
             ctx.violation("two_final_heads", case, steps, {"family": "http", "version": version})
+        if heads > 1:
+            # every accepted http.response.start is the one response start of its request, whatever its status
+            ctx.violation("two_response_starts", case, steps, {"family": "http", "version": version})
         if nontriv:
             ctx.distinct(["http", version] + _classes(seq))
         ctx.sample(case, cap=2)
